@@ -43,6 +43,11 @@ std::vector<VariablePtr>::const_iterator Component::ComponentImpl::findVariable(
 
 std::vector<VariablePtr>::const_iterator Component::ComponentImpl::findVariable(const VariablePtr &variable) const
 {
+    // Prefer the object itself; only fall back on a structurally equal variable.
+    auto result = std::find(mVariables.begin(), mVariables.end(), variable);
+    if (result != mVariables.end()) {
+        return result;
+    }
     return std::find_if(mVariables.begin(), mVariables.end(),
                         [=](const VariablePtr &v) -> bool { return v->equals(variable); });
 }
@@ -251,8 +256,9 @@ bool Component::removeVariable(const VariablePtr &variable)
 {
     auto result = pFunc()->findVariable(variable);
     if (result != pFunc()->mVariables.end()) {
+        auto found = *result;
         pFunc()->mVariables.erase(result);
-        variable->pFunc()->removeParent();
+        found->pFunc()->removeParent();
         return true;
     }
 
